@@ -38,42 +38,39 @@ theorem standard_self (x : Pats) (tol : Rat) (h : ValidPats x) (ht : 0 < tol) :
 
 /-- first-n three-layer precision with at most `n` patterns -/
 theorem first_n_three_layer_self (x : Pats) (n : Int) (h : ValidPats x) (hn : (x.length : Int) ≤ n) :
-    firstNThreeLayerP x x n = .ok (.scalar 1) := by
+    firstNThreeLayerP x x n = .ok 1 := by
   rw [firstNThreeLayerP_eq, h.guards.1, h.guards.2, firstN_of_le hn, three_layer_self x h]
   rfl
 
 /-- first-n target proportion recall with at most `n` patterns -/
 theorem first_n_target_proportion_self (x : Pats) (n : Int) (h : ValidPats x) (hn : (x.length : Int) ≤ n) :
-    firstNTargetProportionR x x n = .ok (.scalar 1) := by
+    firstNTargetProportionR x x n = .ok 1 := by
   rw [firstNTargetProportionR_eq, h.guards.1, h.guards.2, firstN_of_le hn, establishment_self x h]
   rfl
 
-/-- `evaluate(x, x)`: every entry is 1 (positive `tol`, `thres ≤ 1`, at most `n` patterns) -/
+/-- `evaluate(x, x)`: every entry is 1 (positive `tol`, at most `n` patterns; the forced thresholds are ≤ 1) -/
 theorem evaluate_self (x : Pats) (tol thres : Option Rat) (n : Option Int) (h : ValidPats x)
-    (htol : 0 < tol.getD defaultTol) (hth : thres.getD defaultThres ≤ 1)
-    (hn : (x.length : Int) ≤ n.getD defaultN) :
+    (htol : 0 < tol.getD defaultTol) (hn : (x.length : Int) ≤ n.getD defaultN) :
     evaluate x x tol thres none n = .ok
-      [("F", .scalar 1), ("P", .scalar 1), ("R", .scalar 1),
-       ("F_est", .scalar 1), ("P_est", .scalar 1), ("R_est", .scalar 1),
-       ("F_occ.5", .scalar 1), ("P_occ.5", .scalar 1), ("R_occ.5", .scalar 1),
-       ("F_occ.75", .scalar 1), ("P_occ.75", .scalar 1), ("R_occ.75", .scalar 1),
-       ("F_3", .scalar 1), ("P_3", .scalar 1), ("R_3", .scalar 1),
-       ("FFP", .scalar 1), ("FFTP_est", .scalar 1)] := by
+      [("F", 1), ("P", 1), ("R", 1), ("F_est", 1), ("P_est", 1), ("R_est", 1),
+       ("F_occ.5", 1), ("P_occ.5", 1), ("R_occ.5", 1), ("F_occ.75", 1), ("P_occ.75", 1), ("R_occ.75", 1),
+       ("F_3", 1), ("P_3", 1), ("R_3", 1), ("FFP", 1), ("FFTP_est", 1)] := by
   unfold evaluate
   simp only [Option.getD_none]
-  rw [standard_self x _ h htol, bind_ok, establishment_self x h, bind_ok, occurrence_self x _ h hth, bind_ok,
-    bind_ok, three_layer_self x h, bind_ok, first_n_three_layer_self x _ h hn, bind_ok,
-    first_n_target_proportion_self x _ h hn, bind_ok]
+  rw [standard_self x _ h htol, bind_ok, establishment_self x h, bind_ok,
+    occurrence_self x (1 / 2) h (by decide +kernel), bind_ok,
+    occurrence_self x (3 / 4) h (by decide +kernel), bind_ok, three_layer_self x h, bind_ok,
+    first_n_three_layer_self x _ h hn, bind_ok, first_n_target_proportion_self x _ h hn, bind_ok]
   rfl
 
 /-! non-vacuity -/
 def exX : Pats := [[[(0, 60), (1, 62)], [(4, 60), (5, 62), (6, 64)]], [[(1/2, 61)]]]
 
-example : ValidPats exX ∧ (exX.length : Int) ≤ 5 ∧ (0 : Rat) < defaultTol ∧ defaultThres ≤ 1 := by decide +kernel
+example : ValidPats exX ∧ (exX.length : Int) ≤ 5 ∧ (0 : Rat) < defaultTol := by decide +kernel
 example : establishmentFPR exX exX = .ok (1, 1, 1) ∧ occurrenceFPR exX exX = .ok (1, 1, 1) ∧
     threeLayerFPR exX exX = .ok (1, 1, 1) ∧ standardFPR exX exX = .ok (1, 1, 1) := by decide +kernel
 /-- the hypothesis `x.length ≤ n` matters: with n = 1 the second pattern is not retrieved -/
-example : firstNTargetProportionR exX exX 1 = .ok (.scalar (1/2)) := by decide +kernel
+example : firstNTargetProportionR exX exX 1 = .ok (1/2) := by decide +kernel
 /-- distinctness matters: an occurrence listing a point twice does not score 1 against itself -/
 example : establishmentFPR [[[(0, 60), (0, 60), (1, 62)]]] [[[(0, 60), (0, 60), (1, 62)]]] = .ok (2/3, 2/3, 2/3) := by
   decide +kernel
